@@ -92,7 +92,40 @@ def check(ex):
   return out
 
 
+# ---- SIGINT: "when execute() returns (or re-raises KeyboardInterrupt) the record is complete ... called exactly once" ----
+SIGINT_CFGS = {'quick': [(('plain3', 2, 'sigint', 'free'), 0)],
+               'thorough': [(('plain3', 2, 'sigint', 'free'), 0), (('group', 2, 'sigint', 'free'), 0), (('repeat', 2, 'sigint', 'free'), 0),
+                            (('plain3', 1, 'sigint'), 1)]}
+C09_KINDS = ('callbacks', 'state-left', 'harness-exception', 'bad-return', 'no-return', 'prestart-', 'sigint-')
+
+
+def sigint_check(cfg):
+  from vf.harness import c04  # pylint: disable=g-import-not-at-top
+
+  def chk(ex):
+    rep = {'part': 'sigint', 'cfg': list(cfg), 'choices': ex.choices}
+    out = []
+    for kind, what in c04.analyse(cfg, ex):
+      if kind.startswith(C09_KINDS):
+        out.append(('sigint:%s:%s:%s' % (kind, cfg[0], c04.sigint_zone(ex)), 'SIGINT x%d during execute() of %s: %s; events %r'
+                    % (cfg[1], cfg[0], what, [e[:4] for e in ex.result['events'] if e[0] != 'line'][:40]), rep))
+    return out
+  return chk
+
+
+def run_sigint_into(rep, tier):
+  from vf.harness import c04  # pylint: disable=g-import-not-at-top
+  for cfg, bound in SIGINT_CFGS[tier]:
+    r = explore.explore('C09:sig:%r' % (cfg,), lambda ch, cfg=cfg: c04.execute(cfg, ch), sigint_check(cfg), bound,
+                        cap=30000 if tier == 'quick' else 200000)
+    rep.merge_violations(r['violations'])
+    rep.add_part('sigint %s x%d' % (cfg[0], cfg[1]), states=max(1, r['states']), transitions=r['steps'],
+                 traces_validated_against_impl=r['executions'], deviation_bound=bound, distinct_outcomes=len(r['outcomes']),
+                 exhaustive=not r['capped'], decision_points_default=r['default_points'], samples=r['samples'] or [{'choices': []}])
+
+
 def run_into(rep, tier):
+  run_sigint_into(rep, tier)
   bound = 1 if tier == 'quick' else 2
   r = explore.explore('C09:S', execute, check, bound, cap=30000 if tier == 'quick' else 300000)
   rep.merge_violations(r['violations'])
@@ -102,6 +135,15 @@ def run_into(rep, tier):
 
 
 def replay(r):
+  if r.get('part') == 'sigint':
+    from vf.harness import c04  # pylint: disable=g-import-not-at-top
+    cfg = tuple(r['cfg'])
+    ex = c04.execute(cfg, r['choices'])
+    print([e[:4] for e in ex.result['events'] if e[0] != 'line'])
+    bad = sigint_check(cfg)(ex)
+    for b in bad:
+      print('VIOLATED', b[0], b[1][:600])
+    return 1 if bad else 0
   ex = execute(r['choices'])
   print(ex.result['value'])
   bad = check(ex)
